@@ -9,7 +9,7 @@ from fractions import Fraction
 from harness import common, oplab
 
 ID = "C09"
-LEAN_MODULES = ["PptxModel.Props.C09"]
+LEAN_MODULES = ["PptxModel.Props.C09", "PptxModel.Props.C09C"]
 RULE = (
     "the property table of harness/oplab.py (~110 read/write properties of Presentation, slides, shapes, pictures, "
     "connectors, text frames, paragraphs, runs, fonts, lines, colours, gradient / pattern fills, tables, cells, rows, "
@@ -525,6 +525,161 @@ def conversions(ctx):
     ctx.sample({"line": lines[0], "impl": impl[0]})
 
 
+_CLR_TAGS = ["scrgbClr", "srgbClr", "hslClr", "sysClr", "schemeClr", "prstClr"]
+_XF_TAGS = ["lumMod", "lumOff", "alpha", "satMod", "shade", "tint"]
+
+
+def colours(ctx):
+    """`ColorFormat` histories against `Model/Color` (`c09.color`): the colour of a font, a solid fill, a line, a gradient
+    stop and a pattern foreground, from start states the library never writes itself (any kind of colour element, unknown
+    transform children in any order, several a:lumMod / a:lumOff), under seeded rgb / theme_color / brightness assignments
+    (out-of-range brightness and brightness without a colour included); after EVERY assignment the element as stored and
+    the four readers, read through a proxy obtained at the start and through a new one"""
+    from lxml import etree
+    from pptx import Presentation
+    from pptx.dml.color import RGBColor
+    from pptx.enum.dml import MSO_COLOR_TYPE, MSO_THEME_COLOR
+    from pptx.enum.dml import MSO_PATTERN
+    from pptx.enum.shapes import MSO_SHAPE
+
+    rng = ctx.rng
+    A = oplab_ns()
+    themes = [m for m in MSO_THEME_COLOR if m not in (MSO_THEME_COLOR.NOT_THEME_COLOR, MSO_THEME_COLOR.MIXED)]
+    t_index = {MSO_THEME_COLOR.to_xml(m): i for i, m in enumerate(themes)}
+    ty_no = {None: "n", MSO_COLOR_TYPE.SCRGB: "0", MSO_COLOR_TYPE.RGB: "1", MSO_COLOR_TYPE.HSL: "2", MSO_COLOR_TYPE.SYSTEM: "3",
+             MSO_COLOR_TYPE.SCHEME: "4", MSO_COLOR_TYPE.PRESET: "5"}
+    prs = Presentation()
+    slide = prs.slides.add_slide(prs.slide_layouts[6])
+
+    def site(kind):
+        """(parent element of the colour choice, function delivering a NEW ColorFormat)"""
+        sp = slide.shapes.add_shape(MSO_SHAPE.RECTANGLE, 0, 0, 99, 99)
+        if kind == "font":
+            r = sp.text_frame.paragraphs[0].add_run(); r.text = "t"
+            r.font.fill.solid()
+            return r._r.rPr.find("{%s}solidFill" % A), lambda: r.font.color
+        if kind == "fill":
+            sp.fill.solid()
+            return sp._element.spPr.find("{%s}solidFill" % A), lambda: sp.fill.fore_color
+        if kind == "line":
+            sp.line.fill.solid()
+            return sp._element.spPr.find("{%s}ln" % A).find("{%s}solidFill" % A), lambda: sp.line.color
+        if kind == "stop":
+            sp.fill.gradient()
+            k = rng.randrange(len(sp.fill.gradient_stops))
+            return sp.fill.gradient_stops[k]._gs, lambda: sp.fill.gradient_stops[k].color
+        sp.fill.patterned(); sp.fill.pattern = MSO_PATTERN.CROSS
+        which = rng.choice(["fore_color", "back_color"])
+        getattr(sp.fill, which)
+        tag = "fgClr" if which == "fore_color" else "bgClr"
+        return sp._element.spPr.find("{%s}pattFill" % A).find("{%s}%s" % (A, tag)), lambda: getattr(sp.fill, which)
+
+    def element(parent):
+        for ch in parent:
+            if etree.QName(ch).localname in _CLR_TAGS:
+                return ch
+        return None
+
+    def dump(parent):
+        e = element(parent)
+        if e is None:
+            return "-"
+        k = _CLR_TAGS.index(etree.QName(e).localname)
+        v = int(e.get("val"), 16) if k == 1 else t_index.get(e.get("val"), 0) if k == 4 else 0
+        kids = ",".join("%d=%s" % (_XF_TAGS.index(etree.QName(c).localname), c.get("val")) for c in e)
+        return "%d:%d:%s" % (k, v, kids or "!")
+
+    def readers(c):
+        out = [ty_no.get(c.type, "?")]
+        try:
+            x = c.rgb; out.append(str(int(str(x), 16)))
+        except AttributeError:
+            out.append("e")
+        try:
+            t = c.theme_color; out.append("x" if t == MSO_THEME_COLOR.NOT_THEME_COLOR else str(themes.index(t)))
+        except AttributeError:
+            out.append("e")
+        try:
+            out.append(str(round(c.brightness * 100000)))
+        except AttributeError:
+            out.append("e")
+        return " ".join(out)
+
+    lines, impl, metas = [], [], []
+    n = 60 if ctx.quick else 900
+    for hi in range(n):
+        kind = rng.choice(["font", "fill", "line", "stop", "pattern"])
+        parent, fresh = site(kind)
+        old = element(parent)
+        if old is not None:
+            parent.remove(old)
+        k = rng.choice([None, 1, 1, 4, 4, 0, 2, 3, 5])
+        if k is None and kind in ("stop", "pattern"):
+            k = 5   # a:gs, a:fgClr, a:bgClr REQUIRE a colour element: "no colour" is not a state of theirs
+        if k is not None:
+            attrs = {0: 'r="10000" g="20000" b="30000"', 1: 'val="%06X"' % rng.randrange(2**24), 2: 'hue="600000" sat="50000" lum="40000"',
+                     3: 'val="windowText"', 4: 'val="%s"' % rng.choice(sorted(t_index)), 5: 'val="red"'}[k]
+            kids = []
+            for _ in range(rng.choice([0, 0, 1, 2, 3, 5])):
+                t = rng.choice([0, 0, 1, 1, 2, 3, 4, 5])
+                # a:alpha, a:shade, a:tint are fixed percentages (at most 100000); a:lumMod, a:lumOff, a:satMod are not bounded
+                kids.append('<a:%s val="%d"/>' % (_XF_TAGS[t], rng.choice([0, 1, 25000, 50000, 75000, 100000, 120000 if t in (0, 1, 3) else 99999, rng.randint(0, 100000)])))
+            e = etree.fromstring('<a:%s xmlns:a="%s" %s>%s</a:%s>' % (_CLR_TAGS[k], A, attrs, "".join(kids), _CLR_TAGS[k]))
+            from pptx.oxml import parse_xml
+            e = parse_xml(etree.tostring(e))
+            # the colour choice comes first in every parent used here except a:gs / a:fgClr, where it is the only child
+            parent.insert(0, e)
+        start = dump(parent)
+        held = fresh()
+        outs = ["start|%s|%s" % (start, readers(held))]
+        ops = []
+        for _ in range(rng.randint(1, 8)):
+            r = rng.random()
+            if r < 0.25:
+                v = rng.randrange(2**24)
+                ops.append("r%d" % v)
+                act = lambda c: setattr(c, "rgb", RGBColor(v >> 16, (v >> 8) & 255, v & 255))  # noqa: E731
+            elif r < 0.5:
+                t = rng.randrange(len(themes))
+                ops.append("t%d" % t)
+                act = lambda c: setattr(c, "theme_color", themes[t])  # noqa: E731
+            else:
+                f = rng.choice([Fraction(0), Fraction(1), Fraction(-1), Fraction(5, 4), Fraction(-9, 8), Fraction(1, 2), Fraction(-1, 4)]) if rng.random() < 0.4 \
+                    else Fraction(rng.randint(-70, 70), 64)
+                ops.append("b%d/%d" % (f.numerator, f.denominator))
+                act = lambda c: setattr(c, "brightness", float(f))  # noqa: E731
+            before = dump(parent)
+            who = held if rng.random() < 0.5 else fresh()
+            try:
+                act(who)
+                verdict = "ok"
+            except ValueError:
+                verdict = "ref"
+                if dump(parent) != before:
+                    ctx.fail("color:refused-but-changed", f"{kind} colour {before}: {ops[-1]} was refused with ValueError but the element is now {dump(parent)}",
+                             {"site": kind, "start": start, "ops": list(ops)})
+            a, b = readers(held), readers(fresh())
+            if a != b:
+                ctx.fail("color:stale-proxy", f"{kind} colour {dump(parent)} after {ops}: a ColorFormat obtained before reads (type rgb theme brightness) = {a}, "
+                         f"one obtained now reads {b}", {"site": kind, "start": start, "ops": list(ops)})
+            outs.append("%s|%s|%s" % (verdict, dump(parent), b))
+            ctx.count("colour-op-" + ops[-1][0] + "-" + verdict)
+        ctx.count("colour-site-" + kind); ctx.count("colour-start-" + ("none" if k is None else _CLR_TAGS[k]))
+        line = "c09.color %s %s" % (start, ";".join(ops))
+        lines.append(line); impl.append(";".join(outs)); metas.append({"conv": "colour", "site": kind, "start": start, "ops": ops})
+        ctx.case(key=line)
+    res = ctx.driver.run(lines)
+    for line, i, m, meta in zip(lines, impl, res, metas):
+        ctx.traces += 1
+        if i != m:
+            ctx.disagree("colour", dict(meta, line=line), i, m)
+    # the whole slide must still be valid: transform children stay where the schema has them
+    from harness import xmllab
+    ok, msg = xmllab.validate(slide.part._element)
+    if ok is False:
+        ctx.fail("color:invalid-xml", f"slide after the colour histories: {msg}", {})
+
+
 def oplab_ns():
     return "http://schemas.openxmlformats.org/drawingml/2006/main"
 
@@ -780,6 +935,7 @@ def correspond(ctx):
     conversions(ctx)
     coupled_sums(ctx)
     stores(ctx)
+    colours(ctx)
     rng = ctx.rng
     reps = 6 if ctx.quick else 20
     for r in range(reps):
